@@ -25,7 +25,7 @@ META = {
             'equal. non-trivial = the minified text differs from the source and the program prints something; distinct by (program, options)',
     'assumptions': ['observations are taken in-process with exec() in a fresh namespace dict, stdout captured, 5 s alarm',
                     'instances and classes in the public namespace are compared by type name, base names, attribute names and attribute value summaries; functions only as "function" (their code objects legitimately differ)'],
-    'modelled_not_verified': ['constant folding, renaming, hoisting, import combining, annotation removal and positional-only conversion have no PyCore theorem; they are decided by the oracle here and by the structural theorems of C02-C07, C09, C10',
+    'modelled_not_verified': ['renaming, hoisting, import combining and annotation removal have no PyCore theorem; they are decided by the oracle here and by the structural theorems of C02-C06, C09, C10',
                               'PyCore covers a first-order fragment (no closures, classes, exceptions handlers, containers); the rest of the language is reached by the oracle only'],
 }
 
@@ -266,7 +266,8 @@ def spec_validation(ctx, progs, found_by):
         ctx.sample({'stage': 'spec-validation', 'id': meta[-1][0], 'source': meta[-1][1][:300]})
 
 
-CORE_SWITCHES = ['remove_pass', 'remove_literal_statements', 'remove_object_base', 'remove_explicit_return_none', 'remove_builtin_exception_brackets']
+CORE_SWITCHES = ['remove_pass', 'remove_literal_statements', 'remove_object_base', 'remove_explicit_return_none', 'remove_builtin_exception_brackets',
+                 'constant_folding', 'convert_posargs_to_args']
 
 
 def core_option_sets(ctx, n_random):
@@ -296,7 +297,7 @@ def run(ctx):
     for k in ctx.known:
         if k.get('replay_source'):
             differential(ctx, [(k['id'], k['replay_source'])], osets_all, 'known')
-    differential(ctx, scopegen.sibling_comprehension_programs(), [s for s in osets_all if s[0] in ('defaults', 'only:rename_locals')], 'sibling-scopes')
+    differential(ctx, scopegen.sibling_comprehension_programs() + scopegen.declaration_programs(), [s for s in osets_all if s[0] in ('defaults', 'only:rename_locals')], 'directed-scopes')
     wide = [('wide%d' % i, rungen.program(ctx.rng)) for i in range(ctx.scale(60, 2500))]
     osets_small = [osets_all[0], osets_all[1]] + [s for s in osets_all if s[0].startswith('random')][:ctx.scale(3, 8)]
     osets_small += [s for s in osets_all if s[0] in ('only:rename_locals', 'only:hoist_literals', 'without:rename_locals', 'only:constant_folding')]
